@@ -172,3 +172,59 @@ func (g *Gen) saveThenUseProgram() *GProgram {
 	g.prog.Stmts = append(g.prog.Stmts, &GStmt{Kind: StSend, Sent: sent, Src: src, Dst: dstAcct("c")})
 	return g.prog
 }
+
+// unboundedThenBounded: an account first drawn without limit (so that its balance is never asked
+// for), then used with a bounded overdraft or plainly; the second use must see the first debit.
+func (g *Gen) unboundedThenBoundedProgram() *GProgram {
+	asset := "USD"
+	g.asset = asset
+	g.smallBalances([]string{"b"}, asset, 10)
+	switch g.r.Intn(3) {
+	case 0:
+		delete(g.bal, "a")
+	case 1:
+		g.bal["a"] = map[string]*big.Int{asset: bi(0)}
+	default:
+		g.bal["a"] = map[string]*big.Int{asset: bi(int64(g.r.Intn(6)))}
+	}
+	n1 := bi(int64(1 + g.r.Intn(12)))
+	g.prog.Stmts = append(g.prog.Stmts, &GStmt{Kind: StSend, Sent: &GSent{E: lit(asset, n1)},
+		Src: &GSource{Kind: SrcOverdraft, E: acct("a")}, Dst: dstAcct("c")})
+	if g.r.Chance(1, 3) {
+		g.prog.Stmts = append(g.prog.Stmts, &GStmt{Kind: StSend, Sent: &GSent{E: lit(asset, bi(int64(g.r.Intn(6))))}, Src: srcAcct("world"), Dst: dstAcct("a")})
+	}
+	k := bi(int64(g.r.Intn(20)))
+	var src *GSource
+	if g.r.Chance(2, 3) {
+		src = &GSource{Kind: SrcOverdraft, E: acct("a"), Bounded: lit(asset, k)}
+	} else {
+		src = &GSource{Kind: SrcInorder, Subs: []*GSource{srcAcct("a"), srcAcct("b")}}
+	}
+	sent := &GSent{E: lit(asset, bi(int64(g.r.Intn(20))))}
+	if g.r.Chance(1, 3) {
+		sent = &GSent{All: true, E: &GExpr{Kind: XAsset, S: asset}}
+	}
+	g.prog.Stmts = append(g.prog.Stmts, &GStmt{Kind: StSend, Sent: sent, Src: src, Dst: dstAcct("d")})
+	return g.prog
+}
+
+// metaOverride: the same metadata keys are written several times, with sends in between.
+func (g *Gen) metaOverrideProgram() *GProgram {
+	g.asset = "USD"
+	g.smallBalances([]string{"a", "b"}, "USD", 30)
+	n := 3 + g.r.Intn(4)
+	for i := 0; i < n; i++ {
+		switch g.r.Weighted(40, 30, 30) {
+		case 0:
+			g.prog.Stmts = append(g.prog.Stmts, &GStmt{Kind: StCall, Call: &GFnCall{Name: "set_account_meta",
+				Args: []*GExpr{acct(g.r.Pick([]string{"a", "b"})), {Kind: XString, S: g.r.Pick([]string{"k", "key"})}, g.exprOf("any", 1)}}})
+		case 1:
+			g.prog.Stmts = append(g.prog.Stmts, &GStmt{Kind: StCall, Call: &GFnCall{Name: "set_tx_meta",
+				Args: []*GExpr{{Kind: XString, S: g.r.Pick([]string{"k", "key"})}, g.exprOf("any", 1)}}})
+		default:
+			g.prog.Stmts = append(g.prog.Stmts, &GStmt{Kind: StSend, Sent: &GSent{E: lit("USD", bi(int64(g.r.Intn(10))))},
+				Src: srcAcct(g.r.Pick([]string{"a", "world"})), Dst: dstAcct("c")})
+		}
+	}
+	return g.prog
+}
